@@ -356,12 +356,14 @@ pub fn run(tier: &str) -> i32 {
                 let mut m = Map::new();
                 if let Some(a) = &a {
                     m.insert("k".into(), a.clone());
+                    // the same member name at the root as in the children: the two operands are different nodes
+                    m.insert("x".into(), a.clone());
                 }
                 m.insert("arr".into(), Value::Array(v));
                 Value::Object(m)
             };
             for op in Op::ALL {
-                for q in [format!("$.arr[?$.k{}@.x]", op.text()), format!("$.arr[?@.x{}$['k']]", op.text())] {
+                for q in [format!("$.arr[?$.k{}@.x]", op.text()), format!("$.arr[?@.x{}$['k']]", op.text()), format!("$.arr[?@.x{}$.x]", op.text()), format!("$.arr[?$['x']{}@['x']]", op.text())] {
                     let ast = parse(&q);
                     if let Some(ids) = packed(run, acc, &q, &ast, &cells, &wrap, "$.k OP @.x") {
                         acc.nontrivial += ids.len() as u64;
